@@ -341,6 +341,47 @@ pub fn fuzz_one(data: &[u8]) -> Result<(), String> {
     }
 }
 
+/// Golden (valid) encodings for the fuzz corpus, one file per input, selector byte first.
+pub fn dump_seeds(dir: &std::path::Path) -> std::io::Result<usize> {
+    std::fs::create_dir_all(dir)?;
+    let mut n = 0;
+    let mut put = |sel: u8, body: &[u8]| -> std::io::Result<()> {
+        let mut v = vec![sel];
+        v.extend_from_slice(body);
+        n += 1;
+        std::fs::write(dir.join(format!("seed-{n:03}")), v)
+    };
+    for (k, (s, r, l, idn)) in [(0u16, 1u16, 0u64, 1u16), (3, 2, 5000, 12), (7, 64, 4096 * 64, 1024), (1, 1, 4096, 40)].into_iter().enumerate() {
+        let m = MetaSpec { start: Num::Page(s, 0), len: Num::Any(l), reserved: Num::Page(r, 0), id_bytes: idn, id_kind: if k % 2 == 0 { IdKind::Ascii } else { IdKind::MultiByte }, declared: None };
+        put(0, &encode_meta(&m))?;
+        put(1, &encode_meta(&m))?;
+    }
+    // header: header_version, vec_version, computed_version (u32 each), stamp (u64), format byte, padding
+    for f in [0u8, 1, 64, 65, 66] {
+        let mut h = vec![0u8; vecdb::verif::HEADER_LEN];
+        h[0..4].copy_from_slice(&1u32.to_le_bytes());
+        h[4..8].copy_from_slice(&7u32.to_le_bytes());
+        h[8..12].copy_from_slice(&9u32.to_le_bytes());
+        h[12..20].copy_from_slice(&42u64.to_le_bytes());
+        h[20] = f;
+        put(2, &h)?;
+    }
+    for (start, bytes, vals) in [(24u64, 100u32, 25u32), (4096, 16384, 2048 | 0x8000_0000), (0, 0, 0)] {
+        let mut p = vec![];
+        p.extend(start.to_le_bytes());
+        p.extend(bytes.to_le_bytes());
+        p.extend(vals.to_le_bytes());
+        put(3, &p)?;
+    }
+    for (sel, ty) in [(4u8, ChangeTy::RawU16), (5, ChangeTy::RawU64), (6, ChangeTy::RawA16), (7, ChangeTy::BaseU32), (8, ChangeTy::BasePcoU64)] {
+        for (t, pp, pu, mo, ho) in [(0u8, 0u8, 0u8, 0u8, 0u8), (3, 2, 4, 2, 1), (0, 5, 0, 3, 3)] {
+            let c = ChangeSpec { ty, stamp: Num::Any(5), keep: Num::Any(10), stored_len: Num::Any(20), truncated: t, prev_pushed: pp, pushed: pu, mods: mo, holes: ho };
+            put(sel, &encode_change(&c).0)?;
+        }
+    }
+    Ok(n)
+}
+
 // ------------------------------------------------------------------ header / page
 
 fn ref_format(b: u8) -> Option<Format> {
